@@ -36,6 +36,7 @@ package openapi3filter
 //@   loop 0 invariant fresh(names)
 //@   loop 1 invariant forall k string :: keysPrefix(names, #i)[k] ==> old(declared(input, k)) && authOK(k)
 //@   ensures (result == nil) <==> old(reqOK(input, securityRequirement))
+//@   option safety-tags C07 C10
 //@   tag C07
 
 //@ func ValidateSecurityRequirements
@@ -44,6 +45,7 @@ package openapi3filter
 //@   modifies http.Request.*
 //@   loop 0 invariant forall j int :: 0 <= j && j < #i ==> !old(reqOK(input, srs[j]))
 //@   ensures (result == nil) <==> old(secOK(input, srs))
+//@   option safety-tags C07 C10
 //@   tag C07
 
 //@ func ValidateParameter
@@ -93,4 +95,5 @@ package openapi3filter
 //@        && (forall j int :: 0 <= j && j < len(input.Route.PathItem.Parameters) ==> old(pathParamOK(input, input.Route.PathItem.Parameters[j].Value)))
 //@        && (forall j int :: 0 <= j && j < len(input.Route.Operation.Parameters) ==> old(opParamOK(input, input.Route.Operation.Parameters[j].Value)))
 //@        && old(bodyPartOK(input)))
+//@   option safety-tags C07 C10
 //@   tag C07
